@@ -115,6 +115,10 @@ def build(top, kinds, rng):
             return rng.choice([Resistor(R=float(rng.choice([1, 2, 5, 10]))), Capacitor(C=rng.choice([1e-3, 1e-6]))])
         if k == "short":
             return Resistor(R=0.0)
+        if k == "trap":
+            # a branch that is a short at ONE frequency of the vector only: a series LC at its resonance (w = 1 rad/s gives exactly 0)
+            from pyimpspec import Inductor
+            return Series([Inductor(L=1.0), Capacitor(C=1.0)])
         return Resistor(R=float("inf"))
     items = [build(t, kinds, rng) for t in top[1:]]
     return Series(items) if top[0] == "s" else Parallel(items)
@@ -227,13 +231,18 @@ def run(rep, tier, seed, tr_errors):
     idx = 0
     maxn = 4 if tier == "quick" else 5
     f_small = np.array([1000.0, 1.0, 0.001])
+    f_trap = np.array([1000.0, 1.0 / (2 * np.pi), 0.001])       # 2 pi f = 1.0 exactly at the middle point
     nontriv = 0
     for nl in range(1, maxn + 1):
         for top in topologies(nl):
             kind_sets = list(itertools.product(["fin", "short", "open"], repeat=nl))
             if len(kind_sets) > 30:
                 kind_sets = rng.sample(kind_sets, 30 if tier == "quick" else 81)
+            # plus assignments with a branch that is shorted at one frequency only
+            trap_sets = [ks_ for ks_ in itertools.product(["fin", "short", "open", "trap"], repeat=nl) if "trap" in ks_]
+            kind_sets = kind_sets + rng.sample(trap_sets, min(len(trap_sets), 4 if tier == "quick" else 40))
             for ks in kind_sets:
+                f_small = f_trap if "trap" in ks else np.array([1000.0, 1.0, 0.001])
                 obj = build(top, iter(ks), rng)
                 from pyimpspec.circuit.base import Connection
                 from pyimpspec.circuit.series import Series
